@@ -349,8 +349,10 @@ Section Trav.
     pose proof (policy_apply_filter_same sc s (p_id p)) as [_ PR].
     destruct (policy_apply_filter sc s (p_id p)) as [s1 f1]. cbn [fst] in PR.
     destruct (match f1 with FPass => _ | _ => _ end).
-    - pose proof (kubectl_apply_shape sc s1 l) as [_ [lt [KR AL]]]. rewrite (Hl l eq_refl) in AL.
-      destruct (kubectl_apply sc s1 l) as [s2 r]. cbn [fst] in KR. rewrite PR in KR.
+    - pose proof (mutate_tr sc s1 l) as MR. destruct (mutate sc s1 l) as [sm okm]. cbn [fst] in MR.
+      destruct okm; cbn [negb]; [|eexists _, []; split; [cbn; rewrite MR, PR; reflexivity|constructor]].
+      pose proof (kubectl_apply_shape sc sm l) as [_ [lt [KR AL]]]. rewrite (Hl l eq_refl) in AL.
+      destruct (kubectl_apply sc sm l) as [s2 r]. cbn [fst] in KR. rewrite MR, PR in KR.
       destruct r; eexists _, lt; (split; [cbn; rewrite KR; reflexivity|exact AL]).
     - eexists _, []. split; [cbn; rewrite PR; reflexivity|constructor].
     - eexists _, []. split; [cbn; rewrite PR; reflexivity|constructor].
